@@ -301,6 +301,17 @@ def _torch_repr(dtype, shape, arr):
         big = torch.cat([tt, tt, tt])
         view = big[tt.numel(): 2 * tt.numel()].reshape(shape)
         out.append(("TorchTensor[view into larger storage]", ta.TorchTensor(view, name="t")))
+        # dense but not row-major: the logical tensor is the transpose / a permutation of what lies in storage
+        if len(shape) >= 2 and min(shape) >= 1 and int(np.prod(shape)) > 1:
+            perm = list(range(len(shape)))[::-1]
+            inv = [perm.index(i) for i in range(len(shape))]
+            stored = tt.reshape(shape).permute(perm).contiguous()  # storage holds the permuted layout
+            logical = stored.permute(inv)  # same logical values as `tt.reshape(shape)`, strides not row-major
+            if not logical.is_contiguous():
+                out.append(("TorchTensor[dense, not row-major]", ta.TorchTensor(logical, name="t")))
+        if len(shape) == 2 and shape[0] > 1 and shape[1] > 1:
+            wide = torch.cat([tt.reshape(shape), tt.reshape(shape)], dim=1)
+            out.append(("TorchTensor[strided column slice]", ta.TorchTensor(wide[:, : shape[1]], name="t")))
     except Exception:  # noqa: BLE001  torch build lacks the dtype
         return out or None
     return out
